@@ -18,7 +18,7 @@ RULE = ('cases = generated DSG spec (G-SEL u G-CONN with grouping nodes over con
         'copy; distinct by sha1(case)')
 FUZZ_MODULES = ['adsg_core.graph.adsg', 'adsg_core.graph.adsg_basic', 'adsg_core.graph.choices', 'adsg_core.graph.traversal']   # thorough tier: atheris campaign over these modules (vf/fuzz.py)
 FUZZ_RUNS = 1500
-BUDGET = {'quick': 200, 'thorough': 4000}
+BUDGET = {'quick': 200, 'thorough': 8000}
 OPS = ['copy', 'apply_sel', 'apply_sel', 'apply_sel', 'apply_conn', 'apply_conn', 'constrain', 'set_dv', 'set_metric',
        'decode', 'decode', 'iterate']
 
